@@ -17,7 +17,7 @@ from . import c01, c03, c05
 
 PROPERTY = "C06"
 HANG_SECONDS = 900.0
-LINE_BUDGET = 3000000000
+LINE_BUDGET = 20000000000
 RULE = ("SPMD scenarios over generated configurations, executed on the simulated MPI whose strict matcher compares, per "
         "communicator, the k-th collective of every member (operation, root, counts, datatypes) and whose scheduler "
         "detects deadlock: (layouts) LayoutHandler / LayoutSwapper construction + transposes with the name `set` inside "
